@@ -86,9 +86,12 @@ package model
 //@   modifies model.Enum.Values at e
 //@   modifies maphas.map_string__model.EnumValue at e.ValueNames
 //@   modifies maphas.map_int__model.EnumValue at e.ValueNumbers
-//@   modifies mapval.*
-//@   modifies ptr#o
-//@   modifies ptr#f
+//@   modifies mapval.map_string__model.EnumValue#o at e.ValueNames
+//@   modifies mapval.map_string__model.EnumValue#f at e.ValueNames
+//@   modifies mapval.map_int__model.EnumValue#o at e.ValueNumbers
+//@   modifies mapval.map_int__model.EnumValue#f at e.ValueNumbers
+//@   modifies ptr#o at e.Values
+//@   modifies ptr#f at e.Values
 //@   ensures[C14] ENUMS(e)
 //@   ensures[C14] result == nil ==> len(e.Values) == old(len(e.Values)) + 1 && e.Values[len(e.Values) - 1].Number == pval.Value && e.Values[len(e.Values) - 1].Name == pval.Name
 //@   ensures[C14] result == nil ==> 0 - 2147483648 <= pval.Value && pval.Value <= 2147483647
@@ -188,3 +191,61 @@ package model
 //@   ensures[C14] result1 != nil ==> result0 == nil
 //@   ensures[C14] old(has(x.Packages, id)) && old(mget(x.Packages, id).Compiling) ==> result1 != nil
 //@   loop 1 invariant 0 - 1 <= rangeindex && rangeindex < len(x.ImportPaths)
+// ---- message fields: unique tags and names (the loop builds the list and both indexes)
+//@ define PF(pfields) = (forall i :: 0 <= i && i < len(pfields) ==> pfields[i] != nil && off(pfields[i]) == 0 && pfields[i].Type != nil && off(pfields[i].Type) == 0)
+//@ func newFields
+//@   safety[C14]
+//@   requires WFSYN() && PF(pfields)
+//@   ensures[C14] result1 != nil ==> result0 == nil
+//@   ensures[C14] result1 == nil ==> result0 != nil && len(result0.List) == len(pfields)
+//@   ensures[C14] result1 == nil ==> (forall i :: 0 <= i && i < len(pfields) ==> result0.List[i] != nil && result0.List[i].Tag == pfields[i].Tag && result0.List[i].Name == pfields[i].Name && 1 <= pfields[i].Tag && pfields[i].Tag <= 65535)
+//@   ensures[C14] result1 == nil ==> (forall i, j :: 0 <= i && i < j && j < len(pfields) ==> pfields[i].Tag != pfields[j].Tag && pfields[i].Name != pfields[j].Name)
+//@   loop 1 modifies model.Fields.List at fields
+//@   loop 1 modifies maphas.map_int__model.Field at fields.Tags
+//@   loop 1 modifies maphas.map_string__model.Field at fields.Names
+//@   loop 1 modifies mapval.map_int__model.Field#o at fields.Tags
+//@   loop 1 modifies mapval.map_int__model.Field#f at fields.Tags
+//@   loop 1 modifies mapval.map_string__model.Field#o at fields.Names
+//@   loop 1 modifies mapval.map_string__model.Field#f at fields.Names
+//@   loop 1 modifies-fresh ptr#o
+//@   loop 1 modifies-fresh ptr#f
+//@   loop 1 invariant 0 - 1 <= rangeindex && rangeindex < len(pfields) && fields != nil && fresh(fields) && len(fields.List) == rangeindex + 1 && fields.Tags != nil && fields.Names != nil && (obj(fields.List) == 0 || fresh(fields.List)) && (obj(fields.List) == 0 ==> cap(fields.List) == 0) && len(fields.List) <= cap(fields.List)
+//@   loop 1 invariant (forall i :: 0 <= i && i <= rangeindex ==> fields.List[i] != nil)
+//@   loop 1 invariant (forall i :: 0 <= i && i <= rangeindex ==> fields.List[i].Tag == pfields[i].Tag)
+//@   loop 1 invariant (forall i :: 0 <= i && i <= rangeindex ==> fields.List[i].Name == pfields[i].Name)
+//@   loop 1 invariant (forall i :: 0 <= i && i <= rangeindex ==> 1 <= pfields[i].Tag && pfields[i].Tag <= 65535)
+//@   loop 1 invariant (forall i :: 0 <= i && i <= rangeindex ==> has(fields.Tags, pfields[i].Tag) && has(fields.Names, pfields[i].Name))
+//@   loop 1 invariant (forall i, j :: 0 <= i && i < j && j <= rangeindex ==> pfields[i].Tag != pfields[j].Tag && pfields[i].Name != pfields[j].Name)
+
+// ---- enums: every value goes through parseValue; a zero value is required
+//@ func (*Enum).parseValues
+//@   safety[C14]
+//@   requires e != nil && e.Def != nil && penum != nil && ENUMS(e) && fresh(e) && (obj(e.Values) == 0 || fresh(e.Values)) && (obj(e.Values) == 0 ==> cap(e.Values) == 0)
+//@   requires forall i :: 0 <= i && i < len(penum.Values) ==> penum.Values[i] != nil
+//@   modifies model.Enum.Values at e
+//@   modifies maphas.map_string__model.EnumValue at e.ValueNames
+//@   modifies maphas.map_int__model.EnumValue at e.ValueNumbers
+//@   modifies mapval.map_string__model.EnumValue#o at e.ValueNames
+//@   modifies mapval.map_string__model.EnumValue#f at e.ValueNames
+//@   modifies mapval.map_int__model.EnumValue#o at e.ValueNumbers
+//@   modifies mapval.map_int__model.EnumValue#f at e.ValueNumbers
+//@   ensures[C14] ENUMS(e)
+//@   ensures[C14] result == nil ==> len(e.Values) == old(len(e.Values)) + len(penum.Values)
+//@   loop 1 modifies model.Enum.Values at e
+//@   loop 1 modifies maphas.map_string__model.EnumValue at e.ValueNames
+//@   loop 1 modifies maphas.map_int__model.EnumValue at e.ValueNumbers
+//@   loop 1 modifies mapval.map_string__model.EnumValue#o at e.ValueNames
+//@   loop 1 modifies mapval.map_string__model.EnumValue#f at e.ValueNames
+//@   loop 1 modifies mapval.map_int__model.EnumValue#o at e.ValueNumbers
+//@   loop 1 modifies mapval.map_int__model.EnumValue#f at e.ValueNumbers
+//@   loop 1 modifies-fresh ptr#o
+//@   loop 1 modifies-fresh ptr#f
+//@   loop 1 invariant 0 - 1 <= rangeindex && rangeindex < len(penum.Values) && ENUMS(e) && e.Def != nil && (obj(e.Values) == 0 || fresh(e.Values)) && (obj(e.Values) == 0 ==> cap(e.Values) == 0) && len(e.Values) == old(len(e.Values)) + rangeindex + 1
+//@   loop 1 invariant forall i :: 0 <= i && i < len(penum.Values) ==> penum.Values[i] != nil
+
+//@ func parseEnum
+//@   safety[C14]
+//@   requires def != nil && penum != nil
+//@   requires forall i :: 0 <= i && i < len(penum.Values) ==> penum.Values[i] != nil
+//@   ensures[C14] result1 == nil ==> result0 != nil && ENUMS(result0) && has(result0.ValueNumbers, 0) && len(result0.Values) == len(penum.Values)
+//@   ensures[C14] result1 != nil ==> result0 == nil
